@@ -31,6 +31,7 @@ import (
 )
 
 type Case struct {
+	Prog   string   `json:"prog,omitempty"`   // whole-system half: "" = index (one index module), "index2" = two index modules built by the same job
 	System string   `json:"system,omitempty"` // whole-system half: which cache files of a previous run are kept (none | index | all | all-but-index)
 	Seg    uint64   `json:"seg,omitempty"`
 	Start  uint64   `json:"start,omitempty"`
@@ -50,13 +51,16 @@ var dirSeq int64
 // the reference interpreter, which evaluates the filter on each block's own keys.
 func evalSystem(cs Case) (*core.Fail, bool) {
 	p := progs.Index()
+	if cs.Prog == "index2" {
+		p = progs.Index2()
+	}
 	base := sysrun.Scratch("c15base")
 	defer os.RemoveAll(base)
 	mk := func(dir string) sysrun.Config {
 		return sysrun.Config{Modules: p.Modules, Output: p.Output, Prod: true, Seg: cs.Seg, Start: int64(cs.Start), Stop: cs.Stop, Final: cs.Stop + 2, Dir: dir, Source: sysrun.LinearChain{Head: cs.Stop + 3, Final: cs.Stop + 3}, Timeout: 15 * time.Second}
 	}
 	r0 := sysrun.Run(mk(base))
-	desc := fmt.Sprintf("index program prod [%d,%d) seg=%d keep=%s", cs.Start, cs.Stop, cs.Seg, cs.System)
+	desc := fmt.Sprintf("%s program prod [%d,%d) seg=%d keep=%s", p.Name, cs.Start, cs.Stop, cs.Seg, cs.System)
 	if r0.Err != nil {
 		return core.Failf("system:clean-run-failed", "%s: %v", desc, r0.Err), false
 	}
@@ -303,9 +307,11 @@ func Run(ctx *core.Ctx) int {
 		// whole-system half
 		for _, seg := range []uint64{3, 4, 6} {
 			for _, se := range [][2]uint64{{1, 2*seg + 1}, {seg + 1, 3 * seg}, {0, seg}} {
-				for _, keepMode := range []string{"none", "index", "all", "all-but-index"} {
-					if !emit(Case{System: keepMode, Seg: seg, Start: se[0], Stop: se[1]}) {
-						return
+				for _, prog := range []string{"", "index2"} {
+					for _, keepMode := range []string{"none", "index", "all", "all-but-index"} {
+						if !emit(Case{Prog: prog, System: keepMode, Seg: seg, Start: se[0], Stop: se[1]}) {
+							return
+						}
 					}
 				}
 			}
@@ -330,7 +336,7 @@ func Run(ctx *core.Ctx) int {
 	ctx.Cov["expressions_accepted_by_parser"] = accepted
 	ctx.Cov["exhaustive"] = true
 	ctx.Cov["rule"] = fmt.Sprintf("every expression string with <=%d leaves over keys {a,b,c}, operators ' && ', ' || ', juxtaposition and parentheses at any nesting (%d strings) x every assignment of key subsets to the 3 blocks of a segment (8^3); every <=2-leaf expression over bare/single-/double-quoted keys and a key with a space x 16^3 assignments; 15 rejected shapes (judged only if the parser accepts them); a slice with a key absent from the index and through index.File save+load on a local zstd dstore. Oracle: RoaringBitmapsApply(expr,index).Contains(b) == KeysApply(expr, keys(b)); BlockIndex.Skip == SkipFromKeys; a block without keys is never selected; a second evaluation gives the same bitmap and leaves the index bitmaps untouched. Non-trivial: >=2 distinct keys and the filter separates the blocks; every whole-system case.", maxLeaves, len(structural))
-	ctx.Assume = []string{"whole-system half: the index program (index module, map filtered by 'even && three', store filtered by 'three || mod5-1') served in production mode on {empty cache: index built in the request, only the index files of a previous run, all files, all files but the index}; streams compared with each other and with the reference interpreter evaluating the filter on each block's own keys"}
+	ctx.Assume = []string{"whole-system half: the index program (index module, map filtered by 'even && three', store filtered by 'three || mod5-1') and the index2 program (two index modules built by the same job that share a key name on different blocks, maps and a store filtered on it) served in production mode on {empty cache: index built in the request, only the index files of a previous run, all files, all files but the index}; streams compared with each other and with the reference interpreter evaluating the filter on each block's own keys"}
 	defer sysrun.CleanupAll()
 	return ctx.Finish(core.JSONRecheck(ctx.Prop, Eval))
 }
